@@ -113,7 +113,7 @@ func (t WebsocketTransport) StartStream() (string, error) {
 		return "", NewConnError(err, false)
 	}
 
-	sessionID, err := stanza.InitStream(t.GetDecoder())
+	sessionID, err := stanza.InitStreamFraming(t.GetDecoder())
 	if err != nil {
 		t.Close()
 		return "", NewConnError(err, false)
